@@ -333,8 +333,11 @@ fn run_mini(ctx: &Ctx) -> i32 {
     let n = ctx.arg_u64("n").unwrap_or(200) as usize;
     let mut rng = Rng::from_parts(&[ctx.seed, 17, 99]);
     let mut storage = vec![0u8; 800];
-    // boundary patterns first
-    for i in 0..49usize {
+    let shard = ctx.arg_u64("shard").unwrap_or(0) as usize;
+    let shards = ctx.arg_u64("shards").unwrap_or(1).max(1) as usize;
+    rng = Rng::from_parts(&[ctx.seed, 17, 99, shard as u64]);
+    // boundary patterns first (split over the shards)
+    for i in (0..49usize).filter(|i| i % shards == shard) {
         let mut f1: Frag = [0x0079; 13];
         let mut f2: Frag = [0x0078; 13];
         f1[0] = CLASSES[i / 7];
